@@ -17,16 +17,16 @@ RULE = (
 ASSUMPTIONS = [
     "feed/permeate partial pressures are taken from the library's public get_partial_pressures (C04 owns the thermodynamics)",
     "in permeate-pressure mode the permeate partial pressure may be p times the mass OR the mole fraction of y* (the statement does not fix the basis; see KF-PMODE-BASIS under C09)",
-    "calls abandoned after 20000 driving-force evaluations are counted, not judged (termination is C10's)",
+    "calls abandoned after 120000 driving-force evaluations are counted, not judged (termination is C10's)",
 ]
 EPS = 2.0**-52
-SOFT_BUDGET = 20000
+SOFT_BUDGET = 120000  # above the library's own cap of 100000 iterations: slowly converging contractive states are judged
 
 ANCHORS = [('pervaporation/pervaporation.py', 'permeate_pressure * permeate_composition.first', 'permeate-pressure branch of the driving force'), ('pervaporation/pervaporation.py', 'permeate_temperature, self.mixture, permeate_composition', 'permeate-temperature branch of the driving force'), ('pervaporation/pervaporation.py', 'permeate_nrtl_partial_pressures = (0, 0)', 'vacuum branch of the driving force')]
 
 
 def shards(tier, seed):
-    n = {"quick": 1300, "thorough": 60000}[tier]
+    n = {"quick": 1000, "thorough": 60000}[tier]
     return [{"n": n} for _ in range(16)]
 
 
@@ -93,7 +93,7 @@ def run_shard(spec, rep):
         if only is not None and index != only:
             continue
         rng = gen.case_rng(PROP, spec["seed"], spec["shard"], index)
-        fc = gen.FluxCase(rng)
+        fc = gen.FluxCase(rng, modes=gen.MODES + (['Pneutral'] if rng.random() < 0.03 else []))
         n2 = rng.randint(-10, 10)
         k = gen.loguniform(rng, 1e-3, 1e3)
         case = dict(fc.describe(), index=index, pow2=n2, k=k)
@@ -214,16 +214,21 @@ def _judge(rep, case, fc, j, taps, n2, k, Permeance):
         L = lipschitz(fc, anchor, p1, p2, fc.precision)
         if (abs(j[0]) + abs(j[1])) >= 10 * abs(j[0] + j[1]):
             rep.count("composition_map_near_pole_not_judged")  # J1 + J2 nearly cancels: J1/(J1+J2) is ill-conditioned
-        elif L < 0.9:
+        elif L < 0.999:
+            # the loop leaves with |y_n - y_(n-1)| < precision and returns fluxes at y* = y_n, so
+            # |y_J - y*| = |g(y_n) - g(y_(n-1))| <= L * precision < precision for every contractive state, also a
+            # slowly converging one (L close to 1); only the y*-free form needs a margin below 1
             rep.count("contractive_cases")
+            rep.count("contractive_cases_slow(L>=0.9)" if L >= 0.9 else "contractive_cases_fast(L<0.9)")
             if ystar is not None:
                 rep.check("|J1/(J1+J2) - y*| < precision (contractive)", abs(yj - ystar), fc.precision, case,
                           {"y_J": yj, "y*": ystar, "L": L})
-            try:
-                gy = g_map(fc, yj, p1, p2)
-                rep.check("|g(y_J) - y_J| < precision (contractive, y*-free)", abs(gy - yj), fc.precision, case, {"y_J": yj, "g": gy, "L": L})
-            except Exception:
-                rep.count("g_map_unavailable")
+            if L < 0.9:
+                try:
+                    gy = g_map(fc, yj, p1, p2)
+                    rep.check("|g(y_J) - y_J| < precision (contractive, y*-free)", abs(gy - yj), fc.precision, case, {"y_J": yj, "g": gy, "L": L})
+                except Exception:
+                    rep.count("g_map_unavailable")
         else:
             rep.count("non_contractive_cases_not_judged")
     # (e) linear scaling in the permeances
@@ -268,7 +273,7 @@ LEVEL_TEXT = (
     "models, six permeate-mode classes (including the near-equilibrium region) and permeances spanning six decades; the "
     "driving-force evaluations inside each call are tapped, and the returned fluxes are compared with P*(p_feed - "
     "p_perm(y*)) rebuilt from the public thermodynamics at 64 ulp, the self-consistency |y_J - y*| < precision is demanded "
-    "wherever the measured local contraction factor is < 0.9, vacuum / p=0 results bitwise, the pressure identity at "
+    "wherever the measured local contraction factor is < 0.999, vacuum / p=0 results bitwise, the pressure identity at "
     "64 ulp, power-of-two permeance scalings bitwise. Held means no oracle failed on this run's executions."
 )
 LEVEL_NOTE = "Trusted: the library's get_partial_pressures (checked by C04), the measured contraction factor (finite difference of the reference map); calls that raise or exceed 20000 evaluations are counted, not judged."
